@@ -283,6 +283,14 @@ def main():
         if name.endswith("missing_address_slice_pointer.pn") or name.endswith("valid/builtin_format_array.pn"):
             inputs.append([(os.path.basename(name), src)])
     inputs.append([("a.pn", two_mains), ("b.pn", two_mains)])
+    # integer literals around the limits of the lexers' arithmetic (2^64, 2^127, 2^128: the last value that fits and the first
+    # ten that do not), in every base, bare and with a suffix, as a statement and as a lone token
+    for base_v in (1 << 64, 1 << 127, 1 << 128):
+        for v in range(base_v - 2, base_v + 11):
+            for sp in (str(v), "0x%x" % v, "0b" + bin(v)[2:]):
+                for sfx in ("", "u128", "i8"):
+                    inputs.append([("n.pn", "fn main()\n{\n\tvar x: u128 = %s%s;\n}\n" % (sp, sfx))])
+                inputs.append([("n.pn", sp)])
     # values of an opaque structure (there are none): a literal as argument, initialiser, return value, member
     for use in ("fn bar(o: Owner);\npub fn foo()\n{\n\tbar(Owner {});\n}\n", "pub fn foo()\n{\n\tvar o = Owner {};\n}\n",
                 "fn bar(o: &Owner);\npub fn foo()\n{\n\tvar o = Owner {};\n\tbar(&o);\n}\n",
